@@ -15,7 +15,7 @@ def QF(cls, unit, value=None):
 
 
 ROW = Rec(TrajectoryData,
-          time=Real(lo=0), distance=QF(U.Distance, Unit.Foot), velocity=QF(U.Velocity, Unit.FPS), mach=Real(),
+          time=Real(lo=0), distance=QuantityF(U.Distance, units=[Unit.Foot, Unit.Yard]), velocity=QF(U.Velocity, Unit.FPS), mach=Real(),
           height=QF(U.Distance, Unit.Foot), target_drop=QF(U.Distance, Unit.Foot), drop_adj=QF(U.Angular, Unit.Radian),
           windage=QF(U.Distance, Unit.Foot), windage_adj=QF(U.Angular, Unit.Radian),
           look_distance=QF(U.Distance, Unit.Foot), angle=QF(U.Angular, Unit.Radian), density_factor=Real(),
@@ -90,3 +90,105 @@ contract(f'{TD}::HitResult.danger_space', props=('C16',),
              ('target-height-passed-through', 'raw(result.target_height) == raw(target_height)'),
          ],
          modifies=DISPLAY_ONLY)
+
+# =================================================================================== C20: helpers.py
+import py_ballisticcalc.helpers as H  # noqa: E402
+from pyvc.contract import Bool  # noqa: E402
+
+S = 'shot.trajectory'
+NS = f'len({S})'
+SORTED_DIST_S = SORTED_DIST.replace(T, S)
+SORTED_TIME_S = f'forall(0, {NS}, lambda i: forall(i + 1, {NS}, lambda j: {S}[i].time <= {S}[j].time))'
+
+# Lib/bisect.py::bisect_left is inlined at its call sites (A-BISECT: the C accelerator behaves like
+# this source); the loop invariant is the textbook one, the monotonicity precondition is proved at
+# every call site from the sortedness of the trajectory.
+HI0 = '(len(a) if hi is None else hi)'
+contract('Lib/bisect.py::bisect_left', props=('C20',),
+         params={},
+         requires=[('lo-non-negative', 'lo >= 0'),
+                   ('hi-in-range', f'lo <= {HI0} <= len(a)'),
+                   ('no-key', 'key is None'),
+                   ('monotone', f'forall(lo, {HI0}, lambda i: forall(i + 1, {HI0}, lambda j: '
+                                'implies(a[j] < x, a[i] < x)))')],
+         loops={0: LoopContract(
+             ghost_init={'lo0': 'lo', 'hi0': 'hi'},
+             invariants=[('bounds', 'lo0 <= lo <= hi <= hi0'),
+                         ('below', 'forall(lo0, lo, lambda k: a[k] < x)'),
+                         ('not-below', 'forall(hi, hi0, lambda k: not (a[k] < x))')],
+             variant='hi - lo')},
+         )
+from pyvc.contract import REGISTRY  # noqa: E402
+REGISTRY['Lib/bisect.py::bisect_left'].props = ()      # verified through its callers (inlined)
+
+KEY_D = f'({S}[k].distance >> distance_unit)'
+contract(f'{HP}::find_index_of_point_for_distance', props=('C20',),
+         params=dict(shot=HR(Const(False)), distance=Real(), distance_unit=Enum(Unit.Meter, Unit.Yard, Unit.Foot)),
+         requires=[('rows-in-non-decreasing-distance', SORTED_DIST_S)],
+         ensures=[('first-row-at-or-beyond-else-minus-one',
+                   FIRST_AT_LEAST.format(n=NS, key=KEY_D, keyr=KEY_D.replace('[k]', '[result]'), q='distance'))],
+         modifies=[])
+
+contract(f'{HP}::find_time_for_distance_in_shot', props=('C20',),
+         params=dict(shot=HR(Const(False)), distance_in_unit=Real(), distance_unit=Enum(Unit.Meter, Unit.Foot)),
+         requires=[('rows-in-non-decreasing-distance', SORTED_DIST_S)],
+         ensures=[('time-of-first-row-at-or-beyond-else-nan',
+                   f'forall(0, {NS}, lambda k: {KEY_D} < distance_in_unit) if is_nan(result) else '
+                   f'exists(0, {NS}, lambda r: result == {S}[r].time and {KEY_D.replace("[k]", "[r]")} >= '
+                   f'distance_in_unit and forall(0, r, lambda k: {KEY_D} < distance_in_unit))')],
+         modifies=[])
+
+NEAREST = (f'(result == -1 and forall(0, {NS}, lambda k: abs({S}[k].time - time) > max_time_deviation_in_seconds)) or '
+           f'(0 <= result < {NS} and abs({S}[result].time - time) <= max_time_deviation_in_seconds and '
+           f'forall(0, {NS}, lambda k: abs({S}[result].time - time) <= abs({S}[k].time - time)) and '
+           f'forall(0, result, lambda k: abs({S}[k].time - time) > abs({S}[result].time - time)))')
+contract(f'{HP}::find_index_for_time_point', props=('C20',),
+         params=dict(shot=HR(Const(False)), time=Real(), strictly_bigger_or_equal=Enum(True, False),
+                     max_time_deviation_in_seconds=Real()),
+         requires=[('rows-in-non-decreasing-time', SORTED_TIME_S)],
+         raises={'ValueError': 'max_time_deviation_in_seconds < 0 or time < 0'},
+         ensures=[('strict-variant-first-row-at-or-after',
+                   'implies(strictly_bigger_or_equal, ' +
+                   FIRST_AT_LEAST.format(n=NS, key=f'{S}[k].time', keyr=f'{S}[result].time', q='time') + ')'),
+                  ('nearest-variant-minimises-time-difference-earlier-row-on-ties-within-deviation',
+                   f'implies(not strictly_bigger_or_equal, {NEAREST})')],
+         modifies=[])
+
+PTS = 'trajectory_points'
+contract(f'{HP}::find_index_of_apex_in_points', props=('C20',),
+         params=dict(trajectory_points=ROWS, p=Int()),
+         requires=[  # single-peaked: strictly increasing up to row p, non-increasing after it (ghost input p)
+             ('peak-in-range', f'len({PTS}) == 0 or 0 <= p < len({PTS})'),
+             ('rising-to-peak', f'forall(0, p + 1, lambda i: forall(i + 1, p + 1, lambda j: '
+                                f'raw({PTS}[i].height) < raw({PTS}[j].height)))'),
+             ('not-rising-after-peak', f'forall(p, len({PTS}), lambda i: forall(i + 1, len({PTS}), lambda j: '
+                                       f'raw({PTS}[i].height) >= raw({PTS}[j].height)))')],
+         loops={0: LoopContract(invariants=[('bounds', 'left <= p <= right and 0 <= left and right < points_count')],
+                                variant='right - left')},
+         ensures=[('empty-gives-minus-one', f'implies(len({PTS}) == 0, result == -1)'),
+                  ('highest-row', f'implies(len({PTS}) > 0, 0 <= result < len({PTS}) and forall(0, len({PTS}), '
+                                  f'lambda k: raw({PTS}[k].height) <= raw({PTS}[result].height)))')],
+         modifies=[])
+
+contract(f'{HP}::find_first_index_matching_condition', props=('C20',),
+         params={},
+         loops={0: LoopContract(invariants=[
+             ('no-earlier-match', 'forall(0, _i, lambda k: not condition(shot.trajectory[k]))')])})
+REGISTRY[f'{HP}::find_first_index_matching_condition'].props = ()   # verified through its callers (inlined)
+
+contract(f'{HP}::find_index_of_point_with_flag', props=('C20',),
+         params=dict(shot=HR(Const(True)), flag=Enum(1, 2, 4, 8)),
+         ensures=[('first-row-carrying-the-flag-else-minus-one',
+                   f'(result == -1 and forall(0, {NS}, lambda k: ({S}[k].flag & flag) == 0)) or '
+                   f'(0 <= result < {NS} and ({S}[result].flag & flag) != 0 and '
+                   f'forall(0, result, lambda k: ({S}[k].flag & flag) == 0))')],
+         modifies=[])
+
+contract(f'{HP}::find_velocity_less_than_index', props=('C20',),
+         params=dict(shot=HR(Const(True)), velocity_in_units=Real(), velocity_unit=Enum(Unit.MPS, Unit.FPS)),
+         ensures=[('first-row-slower-than-else-minus-one',
+                   f'(result == -1 and forall(0, {NS}, lambda k: ({S}[k].velocity >> velocity_unit) >= '
+                   f'velocity_in_units)) or (0 <= result < {NS} and ({S}[result].velocity >> velocity_unit) < '
+                   f'velocity_in_units and forall(0, result, lambda k: ({S}[k].velocity >> velocity_unit) >= '
+                   f'velocity_in_units))')],
+         modifies=[])
